@@ -3237,6 +3237,39 @@ def _written_names(prog):
     return out
 
 
+def _mutable_escapes(prog, name):
+    """some use of the module-level name hands the object itself on: `return X`, `y = X`, `f(X)`, `obj.a = X`, `[.., X]` - anything but
+    reading through it (`X[k]`, `k in X`, `for _ in X`, `len(X)`, `X.get(..)`, `X + [..]`, `*X`)"""
+    readers = {'get', 'items', 'keys', 'values', 'index', 'count', 'copy'}
+    for m in prog.modules.values():
+        parent = {}
+        for x in ast.walk(m.tree):
+            for ch in ast.iter_child_nodes(x):
+                parent[id(ch)] = x
+        for x in ast.walk(m.tree):
+            if not (isinstance(x, ast.Name) and x.id == name and isinstance(x.ctx, ast.Load)):
+                continue
+            par = parent.get(id(x))
+            if isinstance(par, ast.Subscript) and par.value is x:
+                continue
+            if isinstance(par, ast.Compare) and x in par.comparators:
+                continue
+            if isinstance(par, (ast.For, ast.comprehension)) and par.iter is x:
+                continue
+            if isinstance(par, ast.Attribute) and par.value is x and par.attr in readers:
+                continue
+            if isinstance(par, ast.Call) and isinstance(par.func, ast.Name) and par.func.id in ('len', 'sorted', 'list', 'tuple', 'dict', 'set', 'frozenset',
+                                                                                                  'sum', 'min', 'max', 'any', 'all', 'enumerate', 'iter',
+                                                                                                  'reversed', 'bool') and x in par.args:
+                continue
+            if isinstance(par, ast.BinOp) or isinstance(par, ast.Starred) or (isinstance(par, ast.keyword) and par.arg is None):
+                continue
+            if isinstance(par, ast.Dict) and x in par.values and any(k is None and v is x for k, v in zip(par.keys, par.values)):
+                continue
+            return True
+    return False
+
+
 def inline_new_constants(prog, known):
     """module-level and class-level names that are not in the reference tree and are bound once to a constant display are
     replaced by that display wherever they are read (so `_HEADER_FORMAT = '>8s8s4B2L'` ... `unpack_from(_HEADER_FORMAT, data)`
@@ -3257,6 +3290,14 @@ def inline_new_constants(prog, known):
         for name in list(cands):
             stores = sum(1 for x in ast.walk(m.tree) if isinstance(x, ast.Name) and x.id == name and isinstance(x.ctx, (ast.Store, ast.Del)))
             if stores != 1 or any(isinstance(x, ast.Global) and name in x.names for x in ast.walk(m.tree)):
+                del cands[name]
+        # a mutable object (list / dict / set display) is a constant only where it is read: when it is returned, stored, passed on or
+        # aliased, the one module-level object escapes to code that may write to it - that is state, and must stay visible as such
+        for name in list(cands):
+            v = cands[name].value
+            if not isinstance(v, (ast.List, ast.Dict, ast.Set, ast.ListComp, ast.DictComp, ast.SetComp)):
+                continue
+            if _mutable_escapes(prog, name):
                 del cands[name]
         # constants may refer to each other: resolve in order of definition
         for name, st in list(cands.items()):
